@@ -125,6 +125,26 @@ func TestVerifC02(t *testing.T) {
 				c.Routes[gi].Rules[0].Backends = []vsBackend{{Name: "svc-c", Port: 80, Weight: 1}, {Name: "svc-a", Port: 8080, Weight: 1}}
 			}
 		}
+		// directed: the first rule of an HTTPRoute replaces its prefix (rewrite or redirect), with the replacements whose trailing
+		// slash matters; requests are aimed at the prefix itself and below it
+		if r.Chance(1, 8) {
+			for ri := range c.Routes {
+				if c.Routes[ri].GRPC || len(c.Routes[ri].Rules) == 0 {
+					continue
+				}
+				ru := &c.Routes[ri].Rules[0]
+				kind := []string{"rewrite", "redirect"}[r.Intn(2)]
+				ru.Filters = []vsFilter{{Kind: kind, Path: &vsPathMod{Full: false, Val: []string{"/new/", "/", "/new", "/x/y/"}[r.Intn(4)]}}}
+				if kind == "redirect" {
+					ru.Backends = nil
+				}
+				ru.Matches = []vsMatch{{Path: []string{"/pre", "/pre/", "/a/b"}[r.Intn(3)]}}
+				if r.Bool() {
+					ru.Matches[0].Headers = [][2]string{{"X-A", "1"}}
+				}
+				break
+			}
+		}
 		w := vpRunState(c, false)
 		files := w.Files()
 		reqs := vsGenRequests(r, c, nreq)
